@@ -120,24 +120,6 @@ type Env struct {
 	Created bool
 }
 
-func (e *Env) clone() *Env {
-	n := *e
-	n.BufLen = map[string]Tri{}
-	for k, v := range e.BufLen {
-		n.BufLen[k] = v
-	}
-	n.Binds = map[types.Object]*AVal{}
-	for k, v := range e.Binds {
-		n.Binds[k] = v
-	}
-	n.ErrNil = map[types.Object]Tri{}
-	for k, v := range e.ErrNil {
-		n.ErrNil[k] = v
-	}
-	n.Acts = append([]Action(nil), e.Acts...)
-	return &n
-}
-
 type Exit struct {
 	Kind string // CONTINUE FALL OK ERR BADRET
 	Env  *Env
@@ -320,4 +302,3 @@ func (m *Machine) initialState() string {
 	})
 	return name
 }
-
